@@ -30,3 +30,14 @@ func init() {
 		os.Exit(0)
 	}
 }
+
+func init() {
+	if len(os.Args) > 1 && os.Args[1] == "dbgplw" {
+		p, err := core.Load("")
+		if err != nil {
+			panic(err)
+		}
+		props.DebugPayloadWriters(p)
+		os.Exit(0)
+	}
+}
